@@ -92,6 +92,8 @@ class MessageExtractor:
                     # keep the filters on the line they are written on
                     # parenthesised: the pieces keep their own indentation,
                     # which the tokenizer must not read as block structure
+                    # (closed on a line of its own: the filter list may
+                    # end in a comment)
                     code = (
                         "("
                         + code
@@ -103,7 +105,7 @@ class MessageExtractor:
                         )
                         + " "
                         + node.escapes
-                        + ")"
+                        + "\n)"
                     )
             else:
                 continue
